@@ -292,6 +292,9 @@ func (h NativeHashRecord[K, V]) Equal(thread *Thread, other value.Value) (bool, 
 	switch o := other.SafeAsReference().(type) {
 	case NativeHashRecord[K, V]:
 		return h.EqualNative(thread, o)
+	case HashMap:
+		// maps satisfy the Go HashRecord interface too, but `==` is strict (`=~` compares across the two classes)
+		return false, value.Undefined
 	case HashRecord:
 		return HashRecordEqual(thread, o, h)
 	}
